@@ -308,6 +308,48 @@ def access_sites(mod, fn):
                     yield ins, ('memdst' if k == 0 else 'memsrc'), ins.args[k], a, name.split('.')[1]
 
 
+def escape_sites(mod, fn, pf):
+    """Places where a pointer leaves the function's view under a declared type that promises more alignment than
+    its provenance guarantees: call arguments, pointers stored to non-local memory, returned pointers.
+    Yields (ins, kind, declared alignment, guaranteed alignment, description)."""
+    for ins in fn.instrs():
+        if ins.op == 'call':
+            c = ins.x['callee']
+            name = c[1] if c[0] == 'g' else None
+            if name and (name.startswith('llvm.') or name in ('memcpy', 'memset', 'memmove')):
+                continue
+            for k, (t, v) in enumerate(ins.args):
+                if not is_ptr(mod, t):
+                    continue
+                need = abi_align(mod, pointee(mod, t))
+                if need <= 1:
+                    continue
+                g = pf.val_align((t, v))
+                if g is not None and g < need:
+                    yield ins, 'argument', need, g, 'argument %d of %s (%s*)' % (k + 1, name or 'an indirect call', type_name(mod, pointee(mod, t)))
+        elif ins.op == 'store':
+            t, v = ins.args[0]
+            if is_ptr(mod, t):
+                need = abi_align(mod, pointee(mod, t))
+                if need <= 1:
+                    continue
+                dst = pf.val_origin(ins.args[1])
+                if dst is not None and all(o.startswith('alloca:') for o in dst):
+                    continue          # local slot: tracked exactly
+                g = pf.val_align((t, v))
+                if g is not None and g < need:
+                    yield ins, 'stored-pointer', need, g, 'pointer stored as %s*' % type_name(mod, pointee(mod, t))
+        elif ins.op == 'ret' and ins.args:
+            t, v = ins.args[0]
+            if is_ptr(mod, t):
+                need = abi_align(mod, pointee(mod, t))
+                if need <= 1:
+                    continue
+                g = pf.val_align((t, v))
+                if g is not None and g < need:
+                    yield ins, 'returned-pointer', need, g, 'pointer returned as %s*' % type_name(mod, pointee(mod, t))
+
+
 def split_args(s):
     out = []
     depth = 0
